@@ -12,6 +12,12 @@ from .obligations import Obligation, discharge
 from . import source
 
 
+def sys_stdout_flush():
+    import sys
+    sys.stdout.flush()
+    sys.stderr.flush()
+
+
 class Unsupported(Exception):
     pass
 
@@ -48,11 +54,21 @@ class ExecBase:
         s.cfg = unit.cfg
         s.obls = []
         s.func_stack = []        # FuncInfo stack (inlining)
+        s.par_k = 0
+        s.par_depth = unit.options.get("par_depth", 14)
+        s.sem = None
+        s.is_child = False
+        s.root_bits = None
+        s.kids = []
+        s.obls_base = 0
+        s.worker = 0
         s.axioms = list(unit.axioms)
         s.precise_strings = unit.options.get("strings", False)
 
     # ------------------------------------------------------------------ obligations
     def oblig(s, name, cls, path, goal, axioms=None, quiet=False):
+        if not s.owns(path):
+            return "SKIPPED"
         if z3.is_true(goal):
             verdict, ms, backend, model, smt2 = "PROVED", 0.0, "syntactic", None, None
         else:
@@ -96,7 +112,32 @@ class ExecBase:
             p = path.clone()
             p.pc.append(c)
             res.append(p if p.feasible() else None)
+        if s.par_k and path.par_on and res[0] is not None and res[1] is not None and s.active(path):
+            res[0].bits = path.bits + (0,)
+            res[1].bits = path.bits + (1,)
+            if len(path.bits) < s.par_depth and s.sem is not None and s.sem.acquire(False):
+                # dynamic work sharing: hand the subtree of the TRUE branch to a forked process, keep the FALSE branch here
+                import os
+                sys_stdout_flush()
+                pid = os.fork()
+                if pid == 0:
+                    s.is_child = True
+                    s.root_bits = res[0].lineage
+                    s.kids = []
+                    s.obls_base = len(s.obls)
+                    res[1] = None
+                else:
+                    s.kids.append(pid)
+                    res[0] = None
         return res
+
+    def active(s, path):
+        """in a forked explorer only the paths of its own subtree are alive; everything else belongs to another process"""
+        rb = s.root_bits
+        return rb is None or path.lineage[:len(rb)] == rb
+
+    def owns(s, path):
+        return s.active(path)
 
     def raise_new(s, path, kindname, site="", **fields):
         e = path.new_obj(kindname, **fields)
@@ -238,6 +279,8 @@ class ExecBase:
 
     # ------------------------------------------------------------------ expression evaluation
     def ev(s, n, p):
+        if s.root_bits is not None and not s.active(p):
+            return []
         m = getattr(s, "e_" + type(n).__name__, None)
         if m is None:
             raise Unsupported(f"expression {type(n).__name__} @ line {getattr(n, 'lineno', '?')}")
@@ -318,9 +361,8 @@ class ExecBase:
                             elems = []
                         segs.append(("seq", v))
                         continue
-                    ok_, bad_ = s.fork(p1, p1.length(v.t) == ar)
-                    if bad_ is not None:
-                        s.oblig(f"safe.star_arity[{ast.unparse(node.value)}]", "site", p1, p1.length(v.t) == ar)
+                    s.oblig(f"safe.star_arity[{ast.unparse(node.value)}]", "site", p1, p1.length(v.t) == ar)
+                    p1.pc.append(p1.length(v.t) == ar)
                     elems += [SV(p1.elem(v.t, i)) for i in range(ar)]
                 else:
                     elems.append(v)
